@@ -40,6 +40,7 @@ def proj(st):
         "fr": [{k: f[k] for k in FRKEYS} for f in fr],
         "objs": [{k: o[k] for k in OBJKEYS} for o in st["objs"]], "busy": st["busy"],
         "news": st["news"], "dels": st["dels"], "torn": st["torn"],
+        "prep": list(st["prep"]) if isinstance(st["prep"], list) else [], "nthrow": st["nthrow"],
         "pend": {t: PEND[r["at"]] for t, r in pc.items()},
         "bad": [],
     }
@@ -77,6 +78,27 @@ def run_cfg(ctx, rp, tag, cfg, consts, mode, must, max_paths=None, obs="full", e
                         must_take=must, max_paths=max_paths, extra_random=extra_random, tlc_kw={"workers": WORKERS})
 
 
+def build(ctx, name, sanitize, defines=None):
+    """the replayer; when stack_storage's private members are no longer what the probes expect, a build without those
+    probes (its bookkeeping is then not cross-checked against the harness's own; everything else is observed the same)"""
+    rp = vlib.compile_harness(os.path.join(vlib.VERIF, "harness/storage_replay.cpp"), name, sanitize=sanitize,
+                              defines=defines, fallback_defines=["STORAGE_NO_STACK_PRIVATE"])
+    if vlib.compile_harness.last_fallback:
+        ctx.extra["storage_replay_without_stack_storage_probes"] = True
+        ctx.assume("storage replay built WITHOUT the probes of stack_storage's private members (_alloc_size / _alloc_ptr: "
+                   "their representation changed and the full harness no longer compiles): the size a storage asks for "
+                   "(operator size_t), where its frames are placed and the shared state are still observed")
+    return rp
+
+
+def probe_throw(rp):
+    rc, out = vlib.run_cmd([rp, "--probe-throw"], timeout=60)
+    m = re.search(r"^THROW (\S+)", out, re.M)
+    if rc != 0 or not m:
+        raise vlib.MachineryError("cannot determine what promise_extra_storage::alloc does when the factory throws: " + out[-500:])
+    return m.group(1)   # released | kept | lost
+
+
 def probe_grow(rp):
     rc, out = vlib.run_cmd([rp, "--probe-grow"], timeout=60)
     m = re.search(r"^GROW (\S+)", out, re.M)
@@ -98,8 +120,7 @@ def alloc_replay(ctx):
     Violations are registered in ctx (they appear under the calling property)."""
     # own binary (a C19 run may be building its replayer at the same time), reduced to the three reusing policies and
     # without sanitizers in both tiers: the observation is a count, and the build is most of this function's cost
-    rp = vlib.compile_harness(os.path.join(vlib.VERIF, "harness/storage_replay.cpp"), "storage_replay_" + ctx.prop.lower(),
-                              sanitize=False, defines=["STORAGE_REPLAY_REUSING_ONLY"])
+    rp = build(ctx, "storage_replay_" + ctx.prop.lower(), False, defines=["STORAGE_REPLAY_REUSING_ONLY"])
     rc, out = vlib.run_cmd([rp, "--sizes"], timeout=60)
     if rc != 0:
         raise vlib.MachineryError("frame sizes of the body shapes cannot be classified: " + out[-500:])
@@ -108,7 +129,7 @@ def alloc_replay(ctx):
     fixed = probe_grow(rp) != "delete_new"
     c = {"Policies": '{"stack", "reusable", "mtsafe"}', "ExPolicies": "{}", "MaxCreate": 4, "MaxOverlap": 2,
          "Grain": '"call"', "Fixed": "TRUE" if fixed else "FALSE", "StackInits": "{0}", "BufferInits": "{0}",
-         "PlaceInits": "{300}", "MaxMoves": 0, "MaxOwner": 0}
+         "PlaceInits": "{300}", "MaxMoves": 0, "MaxOwner": 0, "MaxPrep": 2, "MaxThrows": 0, "ThrowFixed": "TRUE"}
     # the shape family follows the scenario number: the random walks on top of the edge cover put every short
     # history under several families
     run_cfg(ctx, rp, "stor_alloc", "Storage_seq.cfg", c, "seq", ["Create", "Complete", "Teardown"], obs="alloc",
@@ -120,8 +141,7 @@ def alloc_replay(ctx):
 
 
 def run(ctx):
-    rp = vlib.compile_harness(os.path.join(vlib.VERIF, "harness/storage_replay.cpp"), "storage_replay",
-                              sanitize=not ctx.quick)
+    rp = build(ctx, "storage_replay", not ctx.quick)
     rc, out = vlib.run_cmd([rp, "--sizes"], timeout=60)
     if rc != 0:
         raise vlib.MachineryError("frame sizes of the body shapes cannot be classified: " + out[-500:])
@@ -134,6 +154,12 @@ def run(ctx):
     fixed = order != "delete_new"
     FX = "TRUE" if fixed else "FALSE"
     ctx.extra["reusable_storage_grow_order"] = order
+    # When the factory of the attached object throws, promise_extra_storage::alloc has to give the memory back to its
+    # base policy.  If the code does not, the creations with a throwing factory are left out of the state graphs that
+    # are replayed and the model of the code's behaviour is decided separately below (like the grow order).
+    thr = probe_throw(rp)
+    ctx.extra["extra_factory_throw_block"] = thr
+    throw_ok = thr != "kept"
 
     # 1. every policy, one thread: all create/complete sequences (the policy and its initial size
     #    parameter are chosen in the initial state)
@@ -143,15 +169,59 @@ def run(ctx):
     inits = {"StackInits": "{0, 200}" if ctx.quick else "{0, 200, 201}", "BufferInits": "{0, 200}",
              "PlaceInits": "{300}" if ctx.quick else "{300, 200}"}
     c = {"Policies": ALL, "ExPolicies": ALL, "MaxCreate": 4 if ctx.quick else 5, "MaxCreateEx": 3 if ctx.quick else 4,
-         "MaxOverlap": 3, "Grain": '"call"', "Fixed": FX, "MaxMoves": 2 if ctx.quick else 3, "MaxOwner": 2 if ctx.quick else 3}
+         "MaxOverlap": 3, "Grain": '"call"', "Fixed": FX, "MaxMoves": 2 if ctx.quick else 3, "MaxOwner": 2 if ctx.quick else 3,
+         "MaxPrep": 2, "MaxThrows": 1 if throw_ok else 0, "ThrowFixed": "TRUE"}
     c.update(inits)
     run_cfg(ctx, rp, "seq", "Storage_seq.cfg", c, "seq",
             ["Create", "CreateB", "Complete", "Teardown", "NewObj", "MoveCtor", "MoveAssign", "Drop",
-             "OwnerResize", "OwnerShrink", "OwnerClear", "OwnerMoveOut", "OwnerSwap"])
+             "OwnerResize", "OwnerShrink", "OwnerClear", "OwnerMoveOut", "OwnerSwap", "Prepare", "CreateP"]
+            + (["CreateThrow"] if throw_ok else []))
+    sdir = os.path.join(vlib.VERIF, "spec", SPEC)
+    seqbase = open(os.path.join(sdir, "Storage_seq.cfg")).read()
+    if throw_ok:
+        # not vacuous: the model of "the block stays where it is" must be rejected
+        pre = os.path.join(vlib.BUILD, "%s_throw_prefix.cfg" % ctx.prop)
+        vlib.write_cfg(pre, seqbase, {"ThrowFixed": "FALSE", "Fixed": FX})
+        r = vlib.run_tlc(sdir, SPEC, pre, "%s_throw_prefix" % ctx.prop, workers=WORKERS, coverage=False)
+        if not r.violation:
+            raise vlib.MachineryError("Storage properties accept a factory exception that leaves the block behind: vacuous")
+        ctx.extra["block_kept_on_throw_model_rejected_by"] = r.violation
+    else:
+        # The code keeps the block.  The model of that violates the property (a heap block nobody releases; the
+        # thread-safe storage stays busy).  Decide on the real code: replay the counterexamples.
+        for pol, invariant in (("default", "HeapFallbackFreedOnce"), ("mtsafe", "BusyMeansInUse")):
+            demo = os.path.join(vlib.BUILD, "%s_throw_%s.cfg" % (ctx.prop, pol))
+            txt = re.sub(r"^INVARIANTS.*$", "INVARIANTS " + invariant, seqbase, flags=re.M)
+            txt = re.sub(r"^PROPERTIES.*$", "", txt, flags=re.M)
+            vlib.write_cfg(demo, txt, {"ThrowFixed": "FALSE", "Fixed": FX, "Policies": '{"%s"}' % pol,
+                                       "ExPolicies": '{"%s"}' % pol, "MaxMoves": 0, "NSlots": NSLOTS})
+            res = ctx.tlc(SPEC, SPEC, demo, "throw_cex_" + pol, workers=1)
+            if not res.violation:
+                raise vlib.MachineryError("block-kept model expected to violate %s" % invariant)
+            hdr = {"policy": pol, "ex": True, "copy": False, "mode": "seq", "grain": "call", "kill": "finish",
+                   "init": 0, "nslots": NSLOTS, "fam": 0, "obs": "full"}
+            followed, out, text = replay_tlc_trace(ctx, res, rp, proj, hdr, "throw_" + pol)
+            if not followed and re.search(r"^DIVERGE \S+ step=%d action=\S+ heap blocks still allocated after the storage "
+                                          r"was destroyed" % (len(res.trace) - 2), out, re.M):
+                followed = True     # every step matched; the replayer's own end-of-scenario check found the block
+            ctx.extra["block_kept_on_throw_counterexample_followed_by_code_" + pol] = followed
+            if followed:
+                what = ("a heap block that is never released" if pol == "default" else
+                        "reusable_storage_mtsafe busy for ever (every later frame goes to the heap)")
+                ctx.violation("extra_factory_throw_block_not_released",
+                              "promise_extra_storage<T, %s>: when the user's factory throws, alloc (coro_storage.h:228-233) "
+                              "lets the exception out without giving the memory it got from its base policy back: %s.  "
+                              "TLC counterexample (%d step(s): %s) followed step by step by the real code." % (
+                                  "default_storage" if pol == "default" else "reusable_storage_mtsafe", what,
+                                  len(res.trace) - 1, ", ".join(l for l, _ in res.trace[1:])),
+                              text + "#" + out.replace("\n", "\n#") + "\n")
+            else:
+                ctx.violation("diverge:Storage:throw_cex_" + pol, "implementation diverges from the block-kept model of a "
+                              "throwing factory: " + out[-600:], text + "#" + out.replace("\n", "\n#") + "\n")
     if not ctx.quick:
         # longer create/complete sequences of the plain policies (no layer, no moves, no owner actions)
         c = {"Policies": ALL, "ExPolicies": "{}", "MaxCreate": 6, "MaxCreateEx": 0, "MaxOverlap": 3, "Grain": '"call"',
-             "Fixed": FX, "MaxMoves": 0, "MaxOwner": 0}
+             "Fixed": FX, "MaxMoves": 0, "MaxOwner": 0, "MaxPrep": 0, "MaxThrows": 0, "ThrowFixed": "TRUE"}
         c.update(inits)
         run_cfg(ctx, rp, "seq_deep", "Storage_seq.cfg", c, "seq", ["Create", "Complete", "Teardown"])
 
